@@ -127,6 +127,8 @@ def interp (o : Obj) : Option Frame :=
         (← asBytes (g .metadata)) (← asBytes (g .data)))
   | .MetadataPushFrame => do
       pure (.metadataPush (← asNat (g .stream_id)) (← asBool (g .flags_ignore)) (← asBytes (g .metadata)))
+  | .ErrorFrame => do
+      pure (.error (← asNat (g .stream_id)) (← asBool (g .flags_ignore)) (← asNat (g .error_code)) (← asBytes (g .data)))
   | .KeepAliveFrame => do
       pure (.keepalive (← asNat (g .stream_id)) (← asBool (g .flags_ignore)) (← asBool (g .flags_respond))
         (← asNat (g .last_received_position)) (← asBytes (g .data)))
